@@ -32,6 +32,7 @@ pub fn run(id: &str) -> Result<String, String> {
         "F69" => f69(),
         "F75" => f75(),
         "F77" => f77(),
+        "F78" => f78(),
         _ => Err(format!("unknown witness {id}")),
     }
 }
@@ -870,4 +871,25 @@ fn f77() -> Result<String, String> {
     let _ = std::panic::take_hook();
     sites.sort();
     if sites.is_empty() { Ok("\"cases\":6".into()) } else { Err(format!("reading a CRAM file with one substituted byte (checksum re-sealed) PANICS while the bases of a record are reconstructed, at: {}", sites.join(", "))) }
+}
+
+/// F78: an INFO float array holding one of BCF's RESERVED NaN bit patterns (a value BCF cannot represent) must be refused with an error by the
+/// BCF writer, not a panic (todo!()).
+fn f78() -> Result<String, String> {
+    use noodles_vcf as vcf;
+    use vcf::variant::io::Write as _;
+    use vcf::variant::record_buf::info::field::{value::Array, Value};
+    let hdr = "##fileformat=VCFv4.3\n##INFO=<ID=FA,Number=.,Type=Float,Description=\"x\">\n##contig=<ID=sq0,length=1000>\n#CHROM\tPOS\tID\tREF\tALT\tQUAL\tFILTER\tINFO\n";
+    let header = vcf::io::Reader::new(hdr.as_bytes()).read_header().map_err(|e| format!("header: {e}"))?;
+    std::panic::set_hook(Box::new(|_| {}));
+    let mut bad = Vec::new(); let mut cases = 0;
+    for bits in [0x7f80_0002u32, 0x7f80_0003, 0x7f80_0007, 0x7f80_0001] {
+        cases += 1;
+        let rec = vcf::variant::RecordBuf::builder().set_reference_sequence_name("sq0").set_variant_start(noodles_core::Position::MIN).set_reference_bases("A")
+            .set_info([(String::from("FA"), Some(Value::Array(Array::Float(vec![Some(1.5), Some(f32::from_bits(bits))]))))].into_iter().collect()).build();
+        let r = std::panic::catch_unwind(|| { let mut w = noodles_bcf::io::Writer::from(Vec::new()); w.write_header(&header).and_then(|_| w.write_variant_record(&header, &rec)).is_ok() });
+        if r.is_err() { bad.push(format!("{bits:#x}")); }
+    }
+    let _ = std::panic::take_hook();
+    if bad.is_empty() { Ok(format!("\"cases\":{cases}")) } else { Err(format!("the BCF writer PANICS on an INFO float array holding a reserved NaN bit pattern: {}", bad.join(", "))) }
 }
